@@ -181,7 +181,7 @@ def run_hist(case):
 
             def adv(a, b):
                 calls[0] += 1
-                pool = [u64(o) for o in tr.present] + \
+                pool = sorted(u64(o) for o in tr.present) + \
                     [u64(o) for o in tr.issued]
                 if pool and calls[0] < 200 and r.random() < 0.85:
                     return max(1, r.choice(pool) + r.choice((-1, 0, 0, 1)))
